@@ -51,6 +51,10 @@ using M = ffsm2::MachineT<cfg::C2>;
 template <int I> struct St; struct Rt;
 using FSM = M::Root<Rt, St<0>, St<1>, St<2>>;
 typedef FSM::Instance Inst;
+// the user's own data inside the state objects: every byte starts as `fillv` (drawn once per run, the same on both
+// sides) and no library call may ever change it - enabling a switch the program does not use included
+static unsigned char fillv; static unsigned char refdata[40];
+static void observe_data(const Inst& m);
 template <typename TC> static void act(TC& c) {
   unsigned char k = pr_draw();
   if ((k & 3) == 1) c.changeTo(pr_below(NST));
@@ -59,6 +63,7 @@ template <typename TC> static void act(TC& c) {
 #endif
 }
 template <int I> struct St : FSM::State {
+  unsigned char data[8]; St() { __builtin_memset(data, fillv, sizeof data); }
   void entryGuard(GuardControl& c) { pr_rec(0x10 + I); unsigned char k = pr_draw(); if (k & 1) c.cancelPendingTransition(); if (k & 2) c.changeTo(pr_below(NST));
 #if PAYLOAD
     pr_rec(c.pendingTransition().payload() ? (c.pendingTransition().payload()->v & 0x7F) : 0xAA);
@@ -71,12 +76,19 @@ template <int I> struct St : FSM::State {
   void update(FullControl& c) { pr_rec(0x50 + I); act(c); }
   void react(const int& e, FullControl& c) { pr_rec(0x70 + I + 4 * (e & 1)); act(c); }
 };
-struct Rt : FSM::State { void enter(PlanControl&) { pr_rec(0xE2); } void update(FullControl& c) { pr_rec(0xE3); act(c); } void exit(PlanControl&) { pr_rec(0xE4); }
+struct Rt : FSM::State { unsigned char ledger[40]; Rt() { __builtin_memset(ledger, fillv, sizeof ledger); }
+  void enter(PlanControl&) { pr_rec(0xE2); } void update(FullControl& c) { pr_rec(0xE3); act(c); } void exit(PlanControl&) { pr_rec(0xE4); }
 #if USE_PLANS
   void planSucceeded(FullControl&) { pr_rec(0xE5); } void planFailed(FullControl&) { pr_rec(0xE6); }
 #endif
 };
+static void observe_data(const Inst& m) {
+  int ok = vmem_equal(m.access<Rt>().ledger, refdata, 40) != 0;
+  ok = ok && vmem_equal(m.access<St<0> >().data, refdata, 8) && vmem_equal(m.access<St<1> >().data, refdata, 8) && vmem_equal(m.access<St<2> >().data, refdata, 8);
+  pr_rec(0xD0 + (ok ? 1 : 0));
+}
 static void observe(const Inst& m) {
+  observe_data(m);
 #if MANUAL
   pr_rec(0x80 + (m.isActive() ? 1 : 0));
 #endif
@@ -89,6 +101,7 @@ static void observe(const Inst& m) {
 #endif
 }
 extern "C" void VCAT(VERIF_PREFIX, scenario)(void) {
+  fillv = pr_draw(); __builtin_memset(refdata, fillv, sizeof refdata);
   Inst m;
   observe(m);
 #if USE_SERIAL
@@ -127,5 +140,6 @@ extern "C" void VCAT(VERIF_PREFIX, scenario)(void) {
   pr_step(KSTEPS + 1);
 #if MANUAL
   if (m.isActive()) m.exit();
+  observe_data(m);                       // the state objects outlive deactivation
 #endif
 }
